@@ -9,6 +9,7 @@ import (
 	"verifmc/engine"
 
 	plush "github.com/gobuffalo/plush/v5"
+	"github.com/gobuffalo/plush/v5/helpers/hctx"
 )
 
 // Render executes src on the real implementation with the cache disabled.
@@ -78,6 +79,12 @@ type BaseID struct {
 }
 type WithNilEmbeddedID struct{ *BaseID }
 
+// WideHelperContext has the helper-context method set plus one more method.
+type WideHelperContext interface {
+	hctx.HelperContext
+	Extra()
+}
+
 // NamedHelperContext is convertible to plush.HelperContext but is a different type.
 type NamedHelperContext plush.HelperContext
 
@@ -88,6 +95,9 @@ func (l IDList) Count() int { return len(l) }
 
 // WithNilEmbedded promotes X through an embedded pointer that is nil.
 type Embedded struct{ X string }
+
+// Hello is a value-receiver method: promoted through the nil embedded pointer it cannot be called
+func (e Embedded) Hello() string { return "emb " + e.X }
 type WithNilEmbedded struct{ *Embedded }
 
 type countIter struct{ n, max int }
